@@ -36,9 +36,6 @@ def main():
     undecided = []
     violations = []
 
-    scratch = vlib.make_scratch()
-    inj = vlib.Injector(scratch)
-    lost_units = {}
     needed_units = []
     for o in obligations:
         for u in o.get('units', []):
@@ -48,48 +45,71 @@ def main():
         if u not in needed_units:
             needed_units.append(u)
     import units as U
-    for u in needed_units:
-        try:
-            info = getattr(U, 'unit_' + u)(inj, scratch)
-            extra['functions'] += info.get('functions', [])
-            extra['dropped'] += info.get('dropped', [])
-            assumptions += info.get('assumptions', [])
-        except AnchorLost as e:
-            lost_units[u] = str(e)
-    try:
-        inj.apply()
-    except AnchorLost as e:
-        print(f'UNDECIDED property={prop} anchor lost while injecting: {e}')
-        finish(prop, tier, obligations, results, t0, checker_cmds, assumptions, extra, 0)
-        return 2
-    extra['injection'] = inj.log
-
-    # ---------------- Engine K / F --------------------------------------------------------------
     kobl = [o for o in obligations if o['engine'] in ('K', 'F')]
-    runnable = []
+    excluded = {}          # unit -> why its generated text does not compile (isolated, its obligations are undecided)
+    kani_build_failed = False
+    for attempt in range(4):
+        scratch = vlib.make_scratch()
+        inj = vlib.Injector(scratch)
+        lost_units = dict(excluded)
+        funcs, dropped, assum = [], [], []
+        for u in needed_units:
+            if u in excluded:
+                continue
+            inj.current_unit = u
+            try:
+                info = getattr(U, 'unit_' + u)(inj, scratch)
+                funcs += info.get('functions', [])
+                dropped += info.get('dropped', [])
+                assum += info.get('assumptions', [])
+            except AnchorLost as e:
+                lost_units[u] = 'anchor lost: ' + str(e)
+        inj.current_unit = None
+        try:
+            inj.apply()
+        except AnchorLost as e:
+            print(f'UNDECIDED property={prop} anchor lost while injecting: {e}')
+            finish(prop, tier, obligations, results, t0, checker_cmds, assumptions, extra, 0)
+            return 2
+        # ---------------- Engine K / F --------------------------------------------------------------
+        runnable = [o for o in kobl if not any(u in lost_units for u in o.get('units', []))]
+        canaries = [c for c in getattr(spec, 'CANARIES', []) if c.get('engine', 'K') == 'K'
+                    and not any(u in lost_units for u in c.get('units', []))
+                    and all(u in needed_units for u in c.get('units', []))]
+        kr = None
+        if runnable:
+            harnesses = [o['harness'] for o in runnable] + [c['harness'] for c in canaries]
+            kr = vlib.run_kani(scratch, harnesses, harness_timeout=getattr(spec, 'HARNESS_TIMEOUT', 600))
+            if kr['compile_failed'] or all(r['status'] == 'NOT_RUN' for r in kr['results'].values()):
+                offenders = vlib.units_of_compile_errors(kr['out'], inj) if kr['compile_failed'] else {}
+                new = {u: m for u, m in offenders.items() if u not in excluded}
+                if new and attempt < 3:
+                    for u, m in new.items():
+                        excluded[u] = 'the text generated for this unit no longer compiles against its shim world: ' + m
+                    continue        # rebuild without the offending unit(s)
+                tail = '\n'.join(kr['out'].split('\n')[-60:])
+                print(tail)
+                print(f'UNDECIDED property={prop} the injected contracts/harnesses did not compile or Kani crashed '
+                      f'(not a violation)')
+                kani_build_failed = True
+        break
+    extra['functions'] += funcs
+    extra['dropped'] += dropped
+    assumptions += assum
+    extra['injection'] = inj.log
     for o in kobl:
         lost = [u for u in o.get('units', []) if u in lost_units]
         if lost:
-            results[o['id']] = dict(status='undecided', detail='anchor lost: ' + lost_units[lost[0]])
+            results[o['id']] = dict(status='undecided', detail=lost_units[lost[0]])
             undecided.append(o['id'])
-        else:
-            runnable.append(o)
-    canaries = [c for c in getattr(spec, 'CANARIES', []) if c.get('engine', 'K') == 'K'
-                and not any(u in lost_units for u in c.get('units', []))
-                and all(u in needed_units for u in c.get('units', []))]
-    if runnable:
-        harnesses = [o['harness'] for o in runnable] + [c['harness'] for c in canaries]
-        kr = vlib.run_kani(scratch, harnesses, harness_timeout=getattr(spec, 'HARNESS_TIMEOUT', 600))
+    if kr is not None:
         checker_cmds.append(kr['cmd'] if len(kr['cmd']) < 600 else kr['cmd'][:600] + ' ...')
-        if kr['compile_failed'] or all(r['status'] == 'NOT_RUN' for r in kr['results'].values()):
-            tail = '\n'.join(kr['out'].split('\n')[-60:])
-            print(tail)
-            print(f'UNDECIDED property={prop} the injected contracts/harnesses did not compile or Kani crashed '
-                  f'(not a violation)')
-            for o in runnable:
-                results[o['id']] = dict(status='undecided', detail='kani build failed')
-            finish(prop, tier, obligations, results, t0, checker_cmds, assumptions, extra, 0)
-            return 2
+    if kani_build_failed:
+        for o in runnable:
+            results[o['id']] = dict(status='undecided', detail='kani build failed')
+            undecided.append(o['id'])
+        runnable = []
+    if runnable:
         for c in canaries:
             r = kr['results'][c['harness']]
             ok = r['status'] == 'FAILED'
